@@ -10,7 +10,7 @@ from vcore import clist, z, zlist
 TIE = 'Tie.C06'
 DEN = 4096
 SHARD = 50
-KINDS = ['cubic', 'ortho', 'mono', 'hexlike', 'tri', 'tri_full']
+KINDS = ['cubic', 'ortho', 'mono', 'hexlike', 'hex', 'tri', 'tri_full']
 RULE = ('cases = trajectories (1-3 atoms, 2-48 frames, coordinates on the 2^-12 grid, steps up to 0.45 cell so that atoms cross cell faces many times '
         'and travel several cells) in 6 lattice classes (integer matrices, optionally rigidly rotated) x dimensions 1-3 x time steps; MSD for every lag and '
         'tracer diffusivity compared (1e-9) with the exact rational value of the definition; non-trivial = an unwrapped excursion of more than one cell')
